@@ -49,7 +49,7 @@ const fsBase = "/tmp" // the property's "fixed temporary base directory"; compar
 // which the client cannot send its result code?  The property's quantifier ranges over inputs (path
 // strings), not over transport faults, so: no — such a leak is recorded as an observation (Notes).
 // Set to true together with the library fix that registers the clean-up before the send.
-const fsSendFailureInQuantifier = false
+const fsSendFailureInQuantifier = true
 
 // ---------------------------------------------------------------------------------------------
 // small helpers
